@@ -345,6 +345,8 @@ def corpus():
         ("lingua-lines", _P([{"k": "code", "stmts": [{"calls": [_c()]}, {"calls": [_c("gettext")]}], "margin": 2}])),
         ("lingua-lines", _P([{"k": "expr", "calls": [_c()], "multi": 2, "lead_blank": 1}])),
         ("filter", _P([T, {"k": "filt", "calls": [_c()]}])),
+        ("filter", _P([T, {"k": "filt", "calls": [_c(), _c("gettext"), _c("ngettext")], "ml": True, "pf": 2}, T])),
+        ("filter", _P([T, {"k": "filt", "calls": [_c(), _c("gettext")], "nlpipe": 2, "pf": 1, "head": [_c()]}, T])),
         ("filter", _P([{"k": "filt", "calls": [_c("gettext", q='"')], "head": [_c()], "pf": 1}], nl="\r\n")),
         ("filter", _P([{"k": "def", "args": [{}], "body": [{"k": "filt", "calls": [_c("ngettext")], "tc": tc0}]}])),
         ("cont", _P([T, T, {"k": "ctl", "kw": "for", "head": {"pieces": [{"brk": 1}, {"c": _c()}]}, "body": [T]}])),
@@ -423,7 +425,8 @@ def plan_strategy(max_items, max_depth):
         "k": st.just("expr"), "calls": st.lists(callspec, min_size=0, max_size=3), "tc": tc, "multi": st.sampled_from([0, 0, 0, 1, 1, 2]), "pre": b, "post": b,
         "w": st.integers(0, 5), "flt": st.integers(0, 2), "more": st.lists(calls0, max_size=2), "call_first": b,
         "lead_blank": st.integers(0, 2)})
-    filt = st.fixed_dictionaries({"k": st.just("filt"), "calls": calls1, "head": calls0, "pf": st.integers(0, 2), "tc": tc})
+    filt = st.fixed_dictionaries({"k": st.just("filt"), "calls": calls1, "head": calls0, "pf": st.integers(0, 2), "tc": tc,
+                                  "ml": st.booleans(), "nlpipe": st.sampled_from([0, 0, 1, 2])})
     piece = st.fixed_dictionaries({"c": st.one_of(st.none(), callspec, callspec), "brk": st.sampled_from(
         [False, False, True]), "wrap": b})
     pieces = st.lists(piece, min_size=1, max_size=4)
